@@ -117,7 +117,7 @@ inline std::vector<Op> genHistory(pbt::Ctx& c, const GenOpts& o) {
     else if (k < 30) op.kind = Op::ERASE;
     else if (k < 50) { op.kind = Op::SET_EXPR; op.cst = genKind(c); op.text = genDefinition(c, op.cst); op.flag = c.coin(); }
     else if (k < 60) { op.kind = Op::SET_ALIAS; op.text = genAlias(c); op.flag = c.chance(3, 4); op.where = c.ipick(1, 4); }
-    else if (k < 66) { op.kind = (o.forms && c.chance(1, 3)) ? Op::SET_FORM : Op::SET_TERM; op.text = genText(c); op.where = c.ipick(0, 3); }
+    else if (k < 66) { op.kind = (o.forms && c.chance(1, 3)) ? Op::SET_FORM : Op::SET_TERM; op.text = genText(c); op.where = c.ipick(0, 15); }
     else if (k < 71) { op.kind = Op::SET_TEXT; op.text = genText(c); }
     else if (k < 74) { op.kind = Op::SET_CONV; op.text = c.coin() ? "convention X1" : ""; }
     else if (k < 81) op.kind = Op::MOVE;
@@ -220,8 +220,10 @@ struct Executor {
       }
       case Op::SET_TERM: r.uid = pickUid(op.target); r.returned = form.SetTermFor(r.uid, op.text); break;
       case Op::SET_FORM: {
-        static const char* tags[] = {"sing,datv", "plur,nomn", "sing,gent", "plur,ablt"};
-        r.uid = pickUid(op.target); r.returned = form.SetTermFormFor(r.uid, op.text.empty() ? "form" : op.text, ccl::lang::Morphology(std::string_view(tags[op.where % 4]))); break;
+        // every group of grammemes: part of speech, tense, person, number, gender, case
+        static const char* tags[] = {"sing,datv", "plur,nomn", "sing,gent", "plur,ablt", "VERB,3per,sing,pres", "past,femn,sing", "futr,1per,plur", "2per,pres",
+                                     "NOUN,masc,accs", "ADJF,neut,loct", "PRTF,past", "INFN", "GRND,pres", "NUMR,gent", "COMP", "NPRO,1per,sing,nomn"};
+        r.uid = pickUid(op.target); r.returned = form.SetTermFormFor(r.uid, op.text.empty() ? "form" : op.text, ccl::lang::Morphology(std::string_view(tags[op.where % 16]))); break;
       }
       case Op::SET_TEXT: r.uid = pickUid(op.target); r.returned = form.SetDefinitionFor(r.uid, op.text); break;
       case Op::SET_CONV: r.uid = pickUid(op.target); r.returned = form.SetConventionFor(r.uid, op.text); break;
